@@ -68,16 +68,23 @@ def _next_sort_index() -> int:
 
 
 def reset_event_counter() -> count:
-    """Reset the global event counter to zero.
+    """Start a fresh event counter for a new simulation.
 
-    Called by Simulation.__init__() so each simulation run gets
-    deterministic sort indices starting from 0.  Returns the new counter so
-    the simulation's heap can share it: events created before the run, during
+    Called by Simulation.__init__().  Returns the new counter so the
+    simulation's heap can share it: events created before the run, during
     it and while paused then draw from one sequence, keeping same-timestamp
     events in creation order.
+
+    The new counter continues after the last index handed out so far instead
+    of restarting at zero.  Sort indices are only ever compared with each
+    other, so the offset is irrelevant - but events that a model builds
+    *before* it constructs its Simulation keep sorting before the events
+    created afterwards, whatever ran earlier in the process.  (Restarting at
+    zero made their relative order depend on how many events earlier
+    simulations in the same interpreter had created.)
     """
     global _global_event_counter
-    _global_event_counter = count()
+    _global_event_counter = count(next(_global_event_counter))
     return _global_event_counter
 
 # Event-level tracing flag — disabled by default for performance.
